@@ -12,7 +12,7 @@ from ..specs import truthy, fmatch
 PROP = "C07"
 W = dict(p_add=8, p_add_many=6, p_remove=4, p_remove_many=3, p_remove_filtered=2, p_update=4, p_update_many=3,
          p_update_filtered=0, g_add=2, g_add_many=1, g_remove=1, g_remove_many=0.5, g_remove_filtered=0.5, rbac=2,
-         clear=0, load=1, save=0.5, build=0, flags=0, query=3, probe=0)
+         clear=0.6, load=1, save=0.5, build=0, flags=0, query=3, probe=0)
 
 
 def reach(g_rules, a, b, depth=10):
